@@ -1,7 +1,9 @@
 /-
   C10 — the property as an executable predicate over an *observed* trace of one object on the two members:
-  rows (event, state on A, state on B).  The bookkeeping follows the events only (who sees whom, start times,
-  what the last authority run on each side must have established); it never calls the model's `authority`.
+  rows (event, state on A, state on B).  The bookkeeping follows the events only (which connections to the other
+  member are attached — a member sees the other one while at least one is left —, start times, restarts with or
+  without the state file, what the last authority run on each side must have established); it never calls the
+  model's `authority`.
 -/
 import IcingaModel.C10.Model
 
@@ -12,12 +14,15 @@ inductive Mode | unknown | paired | alone
   deriving DecidableEq, Repr
 
 structure SpecHalf where
-  sees : Bool
+  conns : List Nat     -- connections to the other member attached and not removed since this side's start
   start : Int
   mode : Mode
   prev : Obj
   asked : Nat := 0     -- notification requests / due checks addressed to this object on this side since its start
   deriving DecidableEq, Repr
+
+/-- "The two endpoints see each other", one direction: at least one connection to the other member is left. -/
+def SpecHalf.sees (h : SpecHalf) : Bool := !h.conns.isEmpty
 
 structure SpecSt where
   a : SpecHalf
@@ -26,16 +31,22 @@ structure SpecSt where
   deriving DecidableEq, Repr
 
 def specInit (c : ObjCfg) : SpecSt :=
-  { a := { sees := false, start := 0, mode := .unknown, prev := fresh c },
-    b := { sees := false, start := 0, mode := .unknown, prev := fresh c }, split := none }
+  { a := { conns := [], start := 0, mode := .unknown, prev := fresh c },
+    b := { conns := [], start := 0, mode := .unknown, prev := fresh c }, split := none }
 
 /-- The start-up grace period of the property: 30 s after the start of the process (unknown start = still starting). -/
 def inGrace (start now : Int) : Bool := decide (start = 0) || decide (now - start < 30)
 
 def specHalfNext (l : Layout) (h : SpecHalf) (e : Ev) (o : Obj) : SpecHalf :=
   match e with
-  | .boot _ start => { sees := false, start := start, mode := .unknown, prev := o, asked := 0 }
-  | .link _ up => { h with sees := up, mode := .unknown, prev := o }
+  -- through the state file the notifications requested and not yet delivered survive the restart, nothing else does
+  | .boot _ start keep =>
+    { conns := [], start := start, mode := .unknown, prev := o, asked := if keep then h.asked - h.prev.execs else 0 }
+  -- what the last run established stays valid as long as the SET of connected endpoints is the same
+  -- (a second connection coming up, one of two going down: no change)
+  | .link _ id up =>
+    let cs := if up then setInsert h.conns id else setErase h.conns id
+    { h with conns := cs, mode := if cs.isEmpty == h.conns.isEmpty then h.mode else .unknown, prev := o }
   | .upd _ now =>
     let m := match l with
       | .pair => if h.sees then Mode.paired else if inGrace h.start now then h.mode else Mode.alone
@@ -71,6 +82,11 @@ def deltaOk (prev o : Obj) : Bool :=
   else if o.paused then o.pauses == prev.pauses + 1 && o.resumes == prev.resumes
   else o.pauses == prev.pauses && o.resumes == prev.resumes + 1
 
+/-- A (re)started process has no authority for a run-once object until an authority run decides — with or without a state
+    file — and has resumed a run-everywhere object exactly once (the stash is internal bookkeeping). -/
+def freshLike (c : ObjCfg) (o : Obj) : Bool :=
+  o.paused == (fresh c).paused && o.pauses == (fresh c).pauses && o.resumes == (fresh c).resumes && o.execs == 0
+
 /-- Authority state untouched. -/
 def sameAuth (prev o : Obj) : Bool :=
   o.paused == prev.paused && o.pauses == prev.pauses && o.resumes == prev.resumes
@@ -87,8 +103,8 @@ def checkWork (c : ObjCfg) (h h' : SpecHalf) (silentWhenPaused : Bool) (o : Obj)
 /-- Checks on the side the event addresses (`h` = bookkeeping before, `h'` after). -/
 def checkOwn (l : Layout) (c : ObjCfg) (h h' : SpecHalf) (e : Ev) (o : Obj) : Option Clause :=
   match e with
-  | .boot _ _ => if o != fresh c then some .freshAfterBoot else none
-  | .link _ _ => if o != h.prev then some .noSpontaneousChange else none
+  | .boot _ _ _ => if !freshLike c o then some .freshAfterBoot else none
+  | .link _ _ _ => if o != h.prev then some .noSpontaneousChange else none
   | .idle _ => if o != h.prev then some .noSpontaneousChange else none
   | .request _ => checkWork c h h' true o
   -- notificationcomponent.cpp:159: the timer honours `paused` only on a node with a local endpoint
